@@ -30,6 +30,7 @@ def t_order(chk, ix):
     # which step definition a step is bound to does not depend on earlier lookups (an undefined step stays undefined)
     from .. import rules_matching
     rules_matching.check_lookup_sequences(chk, ix)
+    rules_order.check_continue_switch_is_class_level(chk, ix)
 
 
 def run(chk, ix, tier):
